@@ -26,6 +26,7 @@ const (
 	keyLabelled0 = "multi-commit-entry:later-commit-labelled-index-0"
 	keyLaterLost = "multi-commit-entry:later-commit-never-delivered"
 	keySkipped   = "leader-regained:unsent-batch-skipped"
+	keyOverlap   = "order:replayed-batch-overlaps-persisted-batch-after-restart"
 )
 
 func run(c *vf.Ctx) {
@@ -40,7 +41,18 @@ func run(c *vf.Ctx) {
 	outs := make([]histOut, n)
 	sem := make(chan struct{}, 4)
 	var wg sync.WaitGroup
+	only := map[int]bool{} // development aid: C25_ONLY=3,7 runs just these cases
+	for _, f := range strings.Split(os.Getenv("C25_ONLY"), ",") {
+		var k int
+		if _, err := fmt.Sscan(f, &k); err == nil {
+			only[k] = true
+		}
+	}
 	for i := 0; i < n; i++ {
+		if len(only) > 0 && !only[i] {
+			outs[i] = histOut{SetupErr: "skipped (C25_ONLY)"}
+			continue
+		}
 		wg.Add(1)
 		go func(i int) {
 			defer wg.Done()
@@ -53,7 +65,7 @@ func run(c *vf.Ctx) {
 			_, code, ok := vf.RunWorkerOnce(false, "c25", []string{fmt.Sprint(i), fmt.Sprint(c.Seed), c.Tier, dir, outF}, nil, logP, time.Duration(c.N(7, 16))*time.Minute)
 			var h histOut
 			b, err := os.ReadFile(outF)
-			if err != nil || json.Unmarshal(b, &h) != nil || !ok || code != 0 {
+			if err != nil || json.Unmarshal(b, &h) != nil {
 				h = histOut{Spec: genCase(c, i), SetupErr: fmt.Sprintf("worker exit=%d finished=%v err=%v", code, ok, err)}
 				if lb, e := os.ReadFile(logP); e == nil {
 					keep := filepath.Join(vf.Out, "replays", fmt.Sprintf("C25-%d-case%d-worker.log", c.Seed, i))
@@ -437,22 +449,35 @@ func judge(c *vf.Ctx, i int, h *histOut) {
 	}
 
 	// order within a tenure: per service instance, between two leader-change
-	// signals to that instance, payload indices never go backwards (a payload
-	// identical to its predecessor is a re-send)
+	// signals to that instance, the indices of successive *distinct* payloads
+	// never go backwards. A body that the instance has posted before is a
+	// re-send or the late arrival of an abandoned attempt (the sender gave up on
+	// that connection and the request reached the handler afterwards): the first
+	// arrival of a body always precedes the first arrival of the next one, so
+	// only first arrivals are ordered.
 	evsBy := map[string][]int64{}
 	for _, le := range h.LeaderEvs {
 		k := fmt.Sprintf("%s/%d", le.Node, le.Inst)
 		evsBy[k] = append(evsBy[k], le.Seq)
 	}
 	type last struct {
-		seq  int64
-		max  uint64
-		hash string
+		seq int64
+		max uint64
 	}
 	lastBy := map[string]*last{}
+	seenBody := map[string]bool{}           // instance + body hash
+	seenMsg := map[string]map[string]bool{} // node -> index+events of every message it has posted
+	msgKey := func(m rmsg) string {
+		var sb strings.Builder
+		fmt.Fprintf(&sb, "%d", m.Index)
+		for _, e := range m.Events {
+			sb.WriteString("\x00" + e.K)
+		}
+		return sb.String()
+	}
 	recs := append([]receipt(nil), h.Receipts...)
 	sort.Slice(recs, func(a, b int) bool { return recs[a].Seq < recs[b].Seq })
-	tenurePairs := 0
+	tenurePairs, staleBodies := 0, 0
 	for _, rc := range recs {
 		if rc.Bad != "" {
 			viol("payload-unparsable", fmt.Sprintf("payload from %s: %s", rc.Node, rc.Bad), rc)
@@ -479,10 +504,17 @@ func judge(c *vf.Ctx, i int, h *histOut) {
 			}
 			prev = m.Index
 		}
+		if seenMsg[rc.Node] == nil {
+			seenMsg[rc.Node] = map[string]bool{}
+		}
 		if mx == 0 {
 			continue
 		}
-		if l := lastBy[k]; l != nil && l.hash != rc.Hash {
+		if seenBody[k+"/"+rc.Hash] {
+			staleBodies++
+			continue
+		}
+		if l := lastBy[k]; l != nil {
 			sameTenure := true
 			for _, s := range evsBy[k] {
 				if s > l.seq && s < rc.Seq {
@@ -492,12 +524,36 @@ func judge(c *vf.Ctx, i int, h *histOut) {
 			if sameTenure {
 				tenurePairs++
 				if mn < l.max {
-					viol("order:index-decreased-within-tenure", fmt.Sprintf("service %s delivered a payload whose lowest index %d is below the highest index %d of its previous payload, with no leader change signalled in between", k, mn, l.max), map[string]any{"payload": rc, "previous_max": l.max})
+					// One precise, known way: after a restart the replayed log entries are
+					// batched with other boundaries than before, and a re-formed batch whose
+					// highest index is new is stored although its lower part repeats groups
+					// of a batch persisted before the restart.
+					overlap := rc.Inst > 1
+					for _, m := range rc.Msgs {
+						if m.Index != 0 && m.Index <= l.max && !seenMsg[rc.Node][msgKey(m)] {
+							overlap = false
+						}
+					}
+					detail := map[string]any{"payload": rc, "previous_max": l.max}
+					if overlap {
+						viol(keyOverlap, fmt.Sprintf("service %s (restarted node) delivered a new batch with indices %d..%d right after a batch ending at index %d in the same tenure; the repeated groups are identical to ones it had already posted from a batch persisted before the restart", k, mn, mx, l.max), detail)
+					} else {
+						viol("order:index-decreased-within-tenure", fmt.Sprintf("service %s delivered a new payload whose lowest index %d is below the highest index %d of its previous payload, with no leader change signalled in between", k, mn, l.max), detail)
+					}
 				}
 			}
 		}
-		lastBy[k] = &last{seq: rc.Seq, max: mx, hash: rc.Hash}
+		seenBody[k+"/"+rc.Hash] = true
+		for _, m := range rc.Msgs {
+			seenMsg[rc.Node][msgKey(m)] = true
+		}
+		if l := lastBy[k]; l == nil || mx >= l.max {
+			lastBy[k] = &last{seq: rc.Seq, max: mx}
+		} else {
+			lastBy[k] = &last{seq: rc.Seq, max: l.max}
+		}
 	}
+	c.Count("payload_bodies_seen_again_resend_or_late_arrival", int64(staleBodies))
 
 	// coverage
 	modes := map[string]int{}
@@ -553,6 +609,13 @@ func judge(c *vf.Ctx, i int, h *histOut) {
 	}
 	if !bad {
 		c.Held(1)
+	} else {
+		keep := filepath.Join(vf.Out, "replays", fmt.Sprintf("C25-%d-case%d-history.json", c.Seed, i))
+		if b, err := json.Marshal(h); err == nil {
+			os.MkdirAll(filepath.Dir(keep), 0755)
+			os.WriteFile(keep, b, 0644)
+			c.Logf("case %d: full history kept in %s", i, keep)
+		}
 	}
 	var firstEntries []expEntry
 	for _, e := range h.Expected {
